@@ -13,11 +13,12 @@
 (* or of the header dump (dump_conf_header):                               *)
 (*   hd  the directives of the generated header in file order,             *)
 (*       [d, k, v, hasv]                                                   *)
+(* or of the file level (TemplateFile): ba / by, en, ob (see JudgeFile).    *)
 (* The case is accepted iff Template!Configure / Template!Header give the   *)
 (* same result; cases outside the documented scope (TemplateSpace!InScope) *)
 (* are accepted without judgement.                                         *)
 (***************************************************************************)
-EXTENDS TemplateDeviations, TLC, Json, IOUtils
+EXTENDS TemplateDeviations, TemplateFile, TLC, Json, IOUtils
 
 T == JsonDeserialize(IOEnv.TRACE_FILE)
 Cases == T.cases
@@ -52,7 +53,27 @@ JudgeTemplate(c) ==
                  ELSE (IF r.text # c.o THEN <<V(c, "Text", r.text, c.o)>> ELSE <<>>)
                       \o (IF r.missing # ToSet(c.m) THEN <<V(c, "MissingReport", r.missing, ToSet(c.m))>> ELSE <<>>)
 
-Judge(c) == IF "hd" \in DOMAIN c THEN JudgeHeader(c) ELSE JudgeTemplate(c)
+\* file level: the template and the output are BYTES, `en` names the codec of the `encoding:` argument
+\*   ba  the template as indices into the byte-atom table T.batoms   (or)   by  the template bytes
+\*   ob  the bytes of the produced file
+BytesOfCase(c) == IF "ba" \in DOMAIN c THEN Concat([j \in 1..Len(c.ba) |-> T.batoms[c.ba[j]]]) ELSE c.by
+JudgeFile(c) ==
+    LET bytes == BytesOfCase(c)
+        enc == Encodings[c.en]
+        conf == T.confs[c.c]
+        fmt == Formats[c.f]
+    IN IF ~ FileInScope(bytes, enc, conf, fmt) THEN <<>>
+       ELSE LET r == ConfigureFile(bytes, enc, conf, fmt) IN
+            IF c.e = 2 THEN <<V(c, "Crashed", r.bytes, <<>>)>>
+            ELSE IF r.err # (c.e = 1)
+                 THEN <<V(c, IF r.err THEN "AcceptedButMustReject" ELSE "RejectedButMustAccept", r.bytes, c.ob)>>
+            ELSE IF r.err THEN <<>>
+            ELSE (IF r.bytes # c.ob THEN <<V(c, "FileBytes", r.bytes, c.ob)>> ELSE <<>>)
+                 \o (IF r.missing # ToSet(c.m) THEN <<V(c, "MissingReport", r.missing, ToSet(c.m))>> ELSE <<>>)
+
+Judge(c) == IF "hd" \in DOMAIN c THEN JudgeHeader(c)
+            ELSE IF "en" \in DOMAIN c THEN JudgeFile(c)
+            ELSE JudgeTemplate(c)
 
 Init == i \in 1..Len(Cases) /\ done = FALSE
 Next == /\ ~ done
